@@ -12,7 +12,7 @@ Definition c14_run (a b c : val) (m : tvmap) :=
   let mem := VAnyUnreachable :: flatten a ++ flatten b ++ flatten c ++ flatten sa ++ flatten sb in
   let sts := flat_map subterms [a; b; c; sa; sb] in
   ((veq a b, veq b c, veq a c, E_f big a b, heq a b),
-   (ab, ba, veq ab ba), (l, r, veq l r), (unite [a; a], unite [a]),
+   (ab, ba, veq ab ba), (l, r, veq l r), (unite [a; a], unite [a], veq a (unite [a]), veq (unite [a; a]) a),
    (sa, s_u, u_s, veq s_u u_s),
    (equiv_onb (E_f big) mem, hash_consistent big sts, existsb has_unhashable_literal [a; b; c; sa; sb],
     existsb has_annotated_unreachable [a; b; c; sa; sb], forallb flat [a; b; c],
